@@ -48,7 +48,7 @@ finally:
 dst = os.path.join(VERIF, "seeded", sid)
 os.makedirs(dst, exist_ok=True)
 for f in ("patch.diff", "demo.py", "notes.md"):
-    if os.path.exists(os.path.join(src, f)):
+    if os.path.exists(os.path.join(src, f)) and os.path.abspath(src) != os.path.abspath(dst):
         shutil.copy(os.path.join(src, f), os.path.join(dst, f))
 meta["needs_to_manifest"] = open(os.path.join(src, "notes.md")).read()[:1200] if os.path.exists(os.path.join(src, "notes.md")) else ""
 meta["what_i_ran"] = "harness/verify_seed.py: demo on unchanged scratch worktree; git apply; pytest tests (68 baseline); demo again; checks with SNAX_REPO=<scratch>"
